@@ -96,7 +96,7 @@ void density_sketch<T, K, A>::update(FwdVector&& point) {
 template<typename T, typename K, typename A>
 template<typename FwdSketch>
 void density_sketch<T, K, A>::merge(FwdSketch&& other) {
-  if (other.is_empty()) return;
+  if (other.n_ == 0) return; // not is_empty(): a compaction may retain nothing, the points still count
   if (other.dim_ != dim_) throw std::invalid_argument("dimension mismatch");
   while (levels_.size() < other.levels_.size()) levels_.push_back(Level(levels_.get_allocator()));
   for (unsigned height = 0; height < other.levels_.size(); ++height) {
@@ -113,7 +113,7 @@ void density_sketch<T, K, A>::merge(FwdSketch&& other) {
 
 template<typename T, typename K, typename A>
 T density_sketch<T, K, A>::get_estimate(const std::vector<T>& point) const {
-  if (is_empty()) throw std::runtime_error("operation is undefined for an empty sketch");
+  if (n_ == 0) throw std::runtime_error("operation is undefined for an empty sketch");
   T density = 0;
   for (unsigned height = 0; height < levels_.size(); ++height) {
     for (const auto& p: levels_[height]) {
